@@ -116,7 +116,7 @@ def dispatcher_arms(cx):
     return handled, allv
 
 
-@obligation("STEP.type_partition", ["C20"], floor=19, kind="exhaustiveness over MessageType",
+@obligation("STEP.type_partition", ["C20", "C15", "C10"], floor=19, kind="exhaustiveness over MessageType",
             why="a message type that is neither local-only nor handled is silently accepted from the network; a local type accepted from the network lets any peer drive timers and failure reports")
 def type_partition(cx):
     il = cx.fn("raw_node::is_local_msg")
@@ -303,7 +303,8 @@ def scan_bounds(cx):
         uses_commit = any(is_f(x, "RaftLog.committed") for x in walk(lo))
         if uses_applied:
             # `applied` lags behind a received-but-unprocessed snapshot: entries in (applied, snapshot.index] do not exist
-            alts = lo[3] if lo[0] == "phi" else ()
+            from ..idioms import alternatives
+            alts = alternatives(lo) if lo[0] != "call" or lo[1].endswith("Option::unwrap_or") else ()
             snap_alt = [a for a in alts if any(x[0] == "call" and (x[1].endswith("Unstable::maybe_first_index") or x[1].endswith("RaftLog::first_index")) for x in walk(a))]
             app_alt = [a for a in alts if a[0] == "bin" and a[1] == "Add" and any(is_f(x, "RaftLog.applied") for x in a[2:4]) and ("int", 1) in a[2:4]]
             viamax = lo[0] == "call" and lo[1].endswith("::max") and any(x[0] == "call" and x[1].endswith("first_index") for x in walk(lo))
